@@ -320,6 +320,10 @@ package bufimagemodify
 //@   ensures wkt-untouched: datawkt.Exists(imageFile.Path()) ==> err == nil && ghost.markCount == old(ghost.markCount)
 //@   ensures marks-jstype-paths-only: ghost.markCount > old(ghost.markCount) ==> len(ghost.n_markedPath) >= 2 && ghost.n_markedPath[len(ghost.n_markedPath) - 2] == 8 && ghost.n_markedPath[len(ghost.n_markedPath) - 1] == 6
 //@   loop 1 invariant forall j int :: 0 <= j && j < $i ==> disableRules[j].FieldName() != ""
+// override precedence among the js_type rules that match the file: the LAST rule that applies to the field (a rule
+// without a field name applies to every field) determines the value that is written
+//@   loop 3 invariant last-applicable-so-far: jsType != nil ==> (exists j int :: 0 <= j && j < $i && (overrideRules[j].FieldName() == "" || overrideRules[j].FieldName() == fullName) && deref(jsType) == cast(descriptorpb.FieldOptions_JSType, overrideRules[j].Value()) && (forall k int :: j < k && k < $i ==> !(overrideRules[k].FieldName() == "" || overrideRules[k].FieldName() == fullName)))
+//@   assert before "fieldDescriptor.Options.Jstype = jsType" last-applicable-override-wins: exists j int :: 0 <= j && j < len(overrideRules) && (overrideRules[j].FieldName() == "" || overrideRules[j].FieldName() == fullName) && deref(jsType) == cast(descriptorpb.FieldOptions_JSType, overrideRules[j].Value()) && (forall k int :: j < k && k < len(overrideRules) ==> !(overrideRules[k].FieldName() == "" || overrideRules[k].FieldName() == fullName))
 //@   closure 2 invariant ghost.markCount > old(ghost.markCount) ==> len(ghost.n_markedPath) >= 2 && ghost.n_markedPath[len(ghost.n_markedPath) - 2] == 8 && ghost.n_markedPath[len(ghost.n_markedPath) - 1] == 6
 //
 // With managed mode disabled nothing is called at all; otherwise no modifier ever sees a well-known-type file.
